@@ -109,6 +109,17 @@ def run(tier, seed):
     for _ in range(300 if tier == "quick" else 20000):
         s = "".join(rnd.choice(alphabet) for _ in range(rnd.randint(6, 40)))[:40]
         extra.append(s)
+    # every path of up to 5 segments over {a, .., .} (thorough: plus 'b c' and the empty segment), with and
+    # without a leading slash: '..' segments after a normal one, repeated separators, leading slashes
+    import itertools
+    segs = ["a", "..", "."] if tier == "quick" else ["a", "..", ".", "b c", ""]
+    for n in range(1, 6 if tier == "quick" else 6):
+        for combo in itertools.product(segs, repeat=n):
+            p = "/".join(combo)
+            if p and p not in ("", "/"):
+                extra.append(p)
+                extra.append("/" + p)
+    extra = list(dict.fromkeys(extra))
     np_ = os.path.join(w, "names.ndjson")
     write_ndjson(np_, names)
     out = os.path.join(w, "names-out.ndjson")
@@ -139,7 +150,7 @@ def run(tier, seed):
     cov = {"states": mc.distinct + ng.distinct, "transitions": mc.generated + ng.generated,
            "traces_validated_against_impl": stats["evaluations"], "samples": samples,
            "evaluations": stats["evaluations"], "distinct_nontrivial": len(stats["nontrivial"]),
-           "rule": "transfers = every terminal path of Stream.tla with Saving (content variants x chunkings x failure positions x previous file or none), observed at the destination before every chunk; names = every string up to length MaxLen over {a . / \\ space U+00E9 U+0001} enumerated by Names.tla plus random names up to length 40, each saved with and without digest prefix; non-trivial = corrupted/failed transfer, or a name containing a path-significant character",
+           "rule": "transfers = every terminal path of Stream.tla with Saving (content variants x chunkings x failure positions x previous file or none), observed at the destination before every chunk; names = every string up to length MaxLen over {a . / \\ space U+00E9 U+0001} enumerated by Names.tla plus random names up to length 40 and every path of up to 5 segments over {a, .., .} with and without a leading slash, each saved with and without digest prefix; non-trivial = corrupted/failed transfer, or a name containing a path-significant character",
            "names_exhaustive_up_to": nl, "random_names": len(extra), "exhaustive": True}
     return v.finish("model_checking", cov, ["TLC; the observer runs in the transport before each chunk is handed out (single-threaded runtime), i.e. at every point between two chunks; directories created by create_dir_all are not files and are ignored when comparing trees"])
 
